@@ -5,7 +5,7 @@ consumes the matching end on every success path or errors — so a node can neve
 or taken from, a neighbouring position — plus the key/value pairing guard, the end-of-variant
 checks of all enum notations and the leftover check of the single-document entry points."""
 from ..mir import MissingAnchor, sym_contains
-from ..rules import render, aggregates, last_seg, bool_switches, must_pass, switch_edges
+from ..rules import render, aggregates, last_seg, bool_switches, must_pass, switch_edges, compares
 from .. import proto
 from . import C11
 
@@ -130,7 +130,25 @@ def run(ctx):
         for name in ("deserialize_tuple", "deserialize_tuple_struct"):
             g = fx.fn(D + name)
             ctx.saw(g)
-            ctx.check(any(fx.callee(t) == f.npath for b, t in g.calls()), "BALANCE", "C05:BALANCE:%s:delegates" % name, "%s delegates to deserialize_seq" % name, "%s no longer delegates to deserialize_seq" % name, config, ctx.where(g))
+            via = {D + "deserialize_tuple", D + "deserialize_tuple_struct"}
+
+            def delegates(h, seen=()):
+                for b, t in h.calls():
+                    c = fx.callee(t)
+                    if c == f.npath:
+                        return True
+                    if c in via and c not in seen and c != h.npath and delegates(fx.fn(c), seen + (h.npath,)):
+                        return True
+                return False
+            ctx.check(delegates(g), "BALANCE", "C05:BALANCE:%s:delegates" % name, "%s delegates to deserialize_seq (directly or through its tuple sibling)" % name, "%s no longer delegates to deserialize_seq" % name, config, ctx.where(g))
+        # the byte-sequence view of a `!!binary` scalar: success only after the byte cursor was compared with the length (a
+        # fixed-arity visitor stops early; the surplus must be an error as it is for a written-out sequence)
+        bvis = [b for b, t in f.calls() if t["f"].get("name") == "visit_seq" and any("ByteSeq" in str(a) for a in t["f"].get("args", []))]
+        ctx.floor("BALANCE.deserialize_seq.byte-view", len(bvis), 1, config)
+        with f.deep():
+            cmp_edges = [(c["block"], c["f"]) for c in compares(f) if c["op"] == "Lt" and "idx" in c["rl"] and "len(" in c["rr"]]
+            cmp_edges += [(c["block"], c["t"]) for c in compares(f) if c["op"] == "Ge" and "idx" in c["rl"] and "len(" in c["rr"]]
+        check_success_behind(ctx, fx, config, f, bvis, cmp_edges, "C05:BALANCE:deserialize_seq:byte-view-exhausted", "the decoded bytes were all consumed (cursor compared with the length)")
         # the visitor is started only after the start was consumed
         vis = [b for b, t in f.calls() if t["f"].get("name") == "visit_seq" and any("SA" in str(a) for a in t["f"].get("args", []))]
         ctx.check(bool(vis) and all(any(f.dominates(s_, v) for s_ in starts) for v in vis), "BALANCE", "C05:BALANCE:deserialize_seq:start-first", "the streaming SeqAccess is handed out only after the SequenceStart was consumed", "visit_seq(SA) is reachable without consuming the SequenceStart", config, ctx.where(f))
@@ -157,6 +175,23 @@ def run(ctx):
                                     trues = [bb for bb, i3, s3 in g.stmts() if s3["k"] == "assign" and s3["rv"]["k"] == "aggr" and s3["rv"]["ak"] == "tuple" and s3["rv"]["ops"] and g.sym_operand(s3["rv"]["ops"][0]) == ("const", True, "bool")]
                                     okn = bool(trues) and all(any(g.edge_dominates(eb, et, tb) for eb, et in ee) for tb in trues)
                         ctx.check(okn, "BALANCE", "C05:BALANCE:SA:none-only-at-end", "SeqAccess answers None only when the next event is SequenceEnd", "SeqAccess can answer None before the sequence end (elements silently dropped)", config, ctx.where(g, b))
+        # SeqAccess: at the end, always None — the end event is never handed to an element seed (a seed that tolerates it, such as
+        # Option or unit, would turn a too-short sequence into a full-length one)
+        for g in sa:
+            ee = end_edges(g, fx, "SeqEnd")
+            end_starts = [tg for sb, tg in ee]
+            for sb, sym, tt, ff in bool_switches(g):
+                if render(sym) == "is_end":
+                    end_starts.append(tt)
+            seeds = [b for b, t in g.calls() if str(t["f"].get("trait")) == "serde::de::DeserializeSeed" and t["f"].get("name") == "deserialize"]
+            ctx.floor("BALANCE.SA.seed-calls", len(seeds), 1, config)
+            # the `is_end` flag is assigned on the end edge and tested later: the reachable set from the raw end edge covers
+            # everything, so the test edge of the flag is the start when there is one
+            flag = [tt for sb, sym, tt, ff in bool_switches(g) if render(sym) == "is_end"]
+            st = flag or end_starts
+            reach = g.reachable(st) if st else set()
+            ctx.check(bool(st) and not (set(seeds) & reach), "BALANCE", "C05:BALANCE:SA:end-always-none", "at the SequenceEnd the SeqAccess answers None and never calls the element seed",
+                      "the SeqAccess can hand the SequenceEnd event to an element seed: a too-short sequence is accepted when the missing positions are Option / unit", config, ctx.where(g))
         # ---- 2. deserialize_bytes, sequence form
         f = fx.fn(D + "deserialize_bytes")
         ctx.saw(f)
